@@ -3,6 +3,7 @@ source files of /repo over it.  Semantics are the textbook ones; conformance/pri
 them, operation sequence by operation sequence, with the real modules."""
 import builtins
 import copy
+import pickle as _pickle
 import os
 import queue as _queue
 import sys
@@ -115,10 +116,13 @@ class VQueue(VObj):
         self._manager = manager
         self._closed = False
         self._putters = {}
+        self._pending = {}          # putter task -> items handed to its feeder but not delivered yet
         cur().queues.append(self)
 
     def _full(self):
-        return self._maxsize > 0 and len(self._items) >= self._maxsize
+        # the bound of a multiprocessing.Queue counts items that were put and not yet got, delivered or not
+        n = len(self._items) + sum(len(p) for p in self._pending.values())
+        return self._maxsize > 0 and n >= self._maxsize
 
     def _check_open(self):
         if self._closed or (self._manager is not None and self._manager._shutdown):
@@ -137,9 +141,35 @@ class VQueue(VObj):
             self._check_open()
             if to:
                 raise _queue.Full()
-        self._items.append(item)
+        if self._proc or self._manager is not None:
+            # items cross a process boundary pickled: the receiver gets an equal object, not the same one
+            try:
+                item = _pickle.loads(_pickle.dumps(item))
+            except Exception:   # noqa -- harness objects that do not pickle stay as they are
+                pass
         if self._proc:
             self._putters[id(item)] = (s.current, item)
+            if s.user.get("delayed_put"):
+                # multiprocessing.Queue.put only hands the item to the process's feeder thread, which writes it to the
+                # pipe some time later: explored as an environment deviation (a feeder task delivers the item); later
+                # puts of the same process queue up behind an undelivered one (the feeder keeps their order)
+                me = s.current
+                pend = self._pending.get(me)
+                if pend is not None:
+                    pend.append(item)
+                    return
+                if s.env_choice(2, "delayed-put"):
+                    pend = self._pending[me] = [item]
+                    q = self
+
+                    def feeder():
+                        while pend:
+                            cur().point(Op("feeder.put", q, True))
+                            q._items.append(pend.pop(0))
+                        del q._pending[me]
+                    s.spawn("QueueFeeder", feeder, daemon=True)
+                    return
+        self._items.append(item)
 
     def _unflushed_of(self, task):
         """items put by `task` that nobody has taken yet and that carry user data of unbounded size"""
@@ -213,6 +243,10 @@ def flush_wait(task):
     written them to the pipe; when the pipe is full (results of arbitrary size) that means: before somebody
     reads them.  Explored as an environment deviation at process exit."""
     s = cur()
+    for q in s.queues:
+        if q._proc and task in q._pending:
+            # the process joins its feeder thread at exit: undelivered items are delivered first
+            s.point(Op("feeder-join", q, False, enabled=lambda q=q: task not in q._pending))
     for q in s.queues:
         if q._proc and q._unflushed_of(task):
             if s.env_choice(2, "pipe-full"):
